@@ -1,9 +1,120 @@
-import LLTD.Model.Block
-import LLTD.Spec.Block
+/-
+  C05 — One mapper at a time; Reset releases it; foreign services cannot seize it.
+  Abstract state: `absM st` = the active mapper (if any).
+-/
+import LLTD.Lemmas.Obs
 
 namespace LLTD.C05
 open LLTD LLTD.Spec
 
-theorem placeholder_layout : X.sizeofDemux = 32 := by decide
+/-- the active mapper as the specification sees it -/
+def absM (st : St) : Option Mac := if st.known then some st.mapperReal else none
+
+/-- frames of other services (type of service ≥ 2) never establish, change or release the mapper, never change
+    any other state, and are never answered — for ALL 254 foreign ToS values and all 256 opcodes -/
+theorem foreign (c : Cfg) (g : Glob) (w : World) (st : St) (img : List Nat) (h : 2 ≤ fTos img) :
+    parseFrameSt c g w st img = { st := st, w := w, fx := [] } := by
+  have h0 : fTos img ≠ 0 := by omega
+  have h1 : fTos img ≠ 1 := by omega
+  simp [parseFrameSt, h0, h1]
+
+/-- while a mapper is active, a Discover whose real source is another station gets no reply and changes nothing -/
+theorem refuse (c : Cfg) (g : Glob) (w : World) (st : St) (img : List Nat) (m : Mac)
+    (ha : absM st = some m) (hd : isDiscover img = true) (hne : fRealSrc img ≠ m) :
+    parseFrameSt c g w st img = { st := st, w := w, fx := [] } := by
+  obtain ⟨_, htos, hop⟩ := (isDiscover_iff img).mp hd
+  have hk : st.known = true ∧ st.mapperReal = m := by
+    unfold absM at ha
+    split at ha
+    · next hk => exact ⟨hk, by simpa using ha⟩
+    · simp at ha
+  have hrej : mapperMatches st (fRealSrc img) = false := by
+    simp only [mapperMatches, hk.1, Bool.not_true, Bool.false_or, hk.2]
+    simp only [beq_eq_false_iff_ne, ne_eq]
+    exact fun e => hne e.symm
+  rw [parseFrameSt_discover c g w st img htos hop]
+  simp [hrej]
+
+/-- every Discover from the active mapper, and every Discover while no mapper is active, is answered by
+    exactly one Hello, and afterwards the Discover's real source is the active mapper -/
+theorem answer (c : Cfg) (g : Glob) (w : World) (st : St) (img : List Nat) (hc : CfgOk c)
+    (hd : isDiscover img = true) (hacc : absM st = none ∨ absM st = some (fRealSrc img))
+    (hm : (w.malloc c.mtuEff).2 = true) :
+    (∃ ok, (parseFrameSt c g w st img).fx.filter (fun x => match x with | .send .. => true | _ => false) =
+        [Fx.send ok c.idx (helloFrame c g (fDiscGen img) (fTos img) (fRealSrc img) (fEthSrc img))]) ∧
+    absM (parseFrameSt c g w st img).st = some (fRealSrc img) := by
+  obtain ⟨hl, htos, hop⟩ := (isDiscover_iff img).mp hd
+  have hmm : mapperMatches st (fRealSrc img) = true := by
+    unfold absM at hacc
+    unfold mapperMatches
+    by_cases hk : st.known = true
+    · simp only [hk, if_true] at hacc
+      rcases hacc with h | h
+      · simp at h
+      · simp at h; simp [hk, h]
+    · simp [hk]
+  refine ⟨?_, ?_⟩
+  · rw [parseFrameSt_discover c g w st img htos hop, if_pos hmm]
+    have hfx := (answerHello_fx c g w (preStep st img) img hc hl hm).1
+    rw [helloGen_preStep] at hfx
+    refine ⟨((w.malloc c.mtuEff).1.send).2, ?_⟩
+    split <;> simp [hfx]
+  · rw [parseFrameSt_discover c g w st img htos hop, if_pos hmm]
+    have hk := preStep_known st img
+    have hr : (preStep st img).mapperReal = fRealSrc img := by
+      have := setActive_real_of_matches st (fRealSrc img) (fEthSrc img) hmm
+      unfold preStep; split <;> simpa using this
+    have hfit := helloFrame_fits c g (helloGen (preStep st img) img) (fTos img) img hc hl
+    have hset : setActiveMapper (preStep st img) (fRealSrc img) (fEthSrc img) = preStep st img := by
+      unfold setActiveMapper; simp [hk]
+    split <;> (unfold answerHello; simp only [hm, Bool.not_true, Bool.false_eq_true, if_false, if_neg hfit, hset, sendFx]) <;>
+      (split <;> simp [absM, hk, hr])
+
+/-- a Reset of either discovery service releases the mapper -/
+theorem reset (c : Cfg) (g : Glob) (w : World) (st : St) (img : List Nat)
+    (htos : fTos img = 0 ∨ fTos img = 1) (hop : fOpcode img = 8) :
+    absM (parseFrameSt c g w st img).st = none := by
+  rcases htos with h | h
+  · simp [parseFrameSt, h, hop, resetSt, absM]
+  · simp [parseFrameSt, h, hop, absM]
+
+/-- after a Reset the next Discover from ANY station is accepted -/
+theorem reset_then_open (st : St) (r : Mac) (h : absM st = none) : mapperMatches st r = true := by
+  unfold absM at h
+  unfold mapperMatches
+  by_cases hk : st.known = true
+  · simp [hk] at h
+  · simp [hk]
+
+/-- frames that are not commands, Discovers or Resets of a discovery service (Hello, Probe, Train, ACK, QueryResp,
+    Charge, Flat, unknown opcodes) leave the active mapper untouched -/
+theorem persist_other (c : Cfg) (g : Glob) (w : World) (st : St) (img : List Nat)
+    (hop : fOpcode img ≠ 0 ∧ fOpcode img ≠ 2 ∧ fOpcode img ≠ 6 ∧ fOpcode img ≠ 8 ∧ fOpcode img ≠ 11) :
+    absM (parseFrameSt c g w st img).st = absM st := by
+  obtain ⟨h0, h2, h6, h8, h11⟩ := hop
+  by_cases t0 : fTos img = 0
+  · by_cases hp : fOpcode img = 3 ∨ fOpcode img = 4
+    · simp only [parseFrameSt, t0, h0, h2, hp, X.tosDiscovery_val, X.tosQuick_val, X.opDiscover_val, X.opEmit_val,
+        X.opTrain_val, X.opProbe_val, true_or, and_false, if_false, if_true]
+      simp only [parseProbe]
+      split
+      · rfl
+      · split
+        · rfl
+        · split
+          · rfl
+          · split <;> simp [absM]
+    · have h3 : fOpcode img ≠ 3 := fun e => hp (Or.inl e)
+      have h4 : fOpcode img ≠ 4 := fun e => hp (Or.inr e)
+      simp [parseFrameSt, t0, h0, h2, h3, h4, h6, h8, h11]
+  · by_cases t1 : fTos img = 1
+    · simp [parseFrameSt, t1, h0, h8, h11]
+    · simp [parseFrameSt, t0, t1]
+
+/-- non-vacuity: the hijack that was possible before 03ac42c — a ToS-2 frame with opcode 0 from a stranger —
+    now leaves a concrete active mapper in place -/
+example : absM (parseFrameSt {} {} {} { known := true, mapperReal := [2, 0, 0, 0, 0, 0x11] }
+    ([255,255,255,255,255,255, 2,0,0,0,0,0x12, 0x88,0xd9, 1, 2, 0, 0] ++ List.replicate 558 0)).st = some [2, 0, 0, 0, 0, 0x11] := by
+  rw [foreign _ _ _ _ _ (by decide)]; rfl
 
 end LLTD.C05
